@@ -6,6 +6,10 @@ BASE = "cd /repo && /venv/bin/python -m pytest -ra -q -p no:cacheprovider --time
 
 # id -> (engine, level, technique, level text, level note, design ref)
 CHECKS = {
+ "C16": ("CX", "model_checking",
+         "stateless choice-sequence exploration (prefix replay, default answer 0, branching at every later environment question, deviation-bounded) of the real RRT* growth loop with the sampler and the random source scripted; tree invariants and an independent brute-force nearest-neighbour replay of the insertion order on every complete execution",
+         "All sample sequences over a 10-pose menu for iteration budgets 1-3 (quick) / 1-4 (thorough) with a draw horizon, deviation-bounded runs to budget 12, and the default findPath path with random.uniform scripted per coordinate, crossed with 4 obstruction layouts x 2 distance modes x 3 neighbour limits: rootedness, acyclic parent links, cost bookkeeping, edge freedom, acceptance range, choice of parent, node count, returned path.",
+         "Budgets <= 4 exhaustively (<= 12 near the default answer); executions that exhaust the draw horizon are counted, not judged; the supplied collision detector itself is C15's subject. A time cap (reported, exhaustive:false) bounds the run on a loaded machine.", "DESIGN 4/C16, 3.3"),
  "C08": ("LX", "exploration",
          "bounded-exhaustive enumeration: all revolute chains of 1..3 joints over a 6-joint palette x link-frame and inertia schemes x joint-state lattice, windows of 4..7 joints, and arms through the Arm-level API, against an independent product-of-exponentials dynamics oracle",
          "All 6^n joint sequences for n <= 3 x 4 link-frame schemes x 3 inertia schemes x {0,0.3,-1.2,pi/2}^n states, cyclic windows for n = 4..7, three/four arms: M symmetric positive definite and equal to sum J^T G J, gravity = gradient of potential, passivity and the Lagrange form of the velocity-product term (Richardson differences), term-by-term torque decomposition, forward/inverse round trips, energy drift under RK4 with step refinement, and agreement of every Arm-level implementation with the port.",
